@@ -238,6 +238,69 @@ class SimFile(object):
         return b"".join(self._chunks)
 
 
+class RewindableSimFile(SimFile):
+    """A destination that honestly supports seek()/tell()/truncate() (like a regular file or StringIO)."""
+
+    def seekable(self):
+        return True
+
+    def tell(self):
+        return len(self.emitted())
+
+    def seek(self, pos, whence=0):
+        cur = len(self.emitted())
+        if whence == 1:
+            pos += cur
+        elif whence == 2:
+            pos += cur
+        if pos != cur:
+            self._pos_request = pos
+        return pos
+
+    def truncate(self, size=None):
+        b = self.emitted()
+        if size is None:
+            size = getattr(self, "_pos_request", len(b))
+        self._chunks = [b[:size]]
+        self._pos_request = size
+        if self.sim is not None:
+            self.sim.log("truncate", self.name, size)
+        return size
+
+
+class SeekLiarSimFile(SimFile):
+    """A destination that says it is seekable and reports its position but cannot be wound back - exactly what
+    gzip.GzipFile / bz2 / lzma streams opened for writing do (OSError: Negative seek in write mode)."""
+
+    def seekable(self):
+        return True
+
+    def tell(self):
+        return len(self.emitted())
+
+    def seek(self, pos, whence=0):
+        cur = len(self.emitted())
+        if whence != 0:
+            pos += cur
+        if pos < cur:
+            raise OSError("Negative seek in write mode")
+        return cur
+
+    def truncate(self, size=None):
+        import io
+        raise io.UnsupportedOperation("truncate")
+
+
+class WriteOnlySimFile(object):
+    """A destination that offers write() and nothing else."""
+
+    def __init__(self, inner):
+        self._inner = inner
+
+    def write(self, data):
+        return self._inner.write(data)
+
+
 class _SubPoint(object):
     """deriv / deriv2 of an EvalPoint: counted as evaluations of the same function."""
 
@@ -338,6 +401,10 @@ class Sim(object):
             kind = plan[k]
             self.fired.append((t.idx, t.op_index, k, kind, role))
             self.log("fault", kind, k)
+            if kind == "returns-complex":
+                # the evaluation does not raise: it hands back what Python's ** gives for a negative base and a
+                # fractional exponent; the failure happens wherever the writer first needs a real number
+                return complex(-0.8660254037844386, 1.5)
             raise make_exception(kind)
         self.yield_point("eval")
         t = self.current
@@ -486,6 +553,8 @@ def new_fp(sim, kind, binary, name="fp"):
 
 
 def fp_bytes(fp):
+    if isinstance(fp, WriteOnlySimFile):
+        fp = fp._inner
     if isinstance(fp, SimFile):
         return fp.emitted()
     v = fp.getvalue()
